@@ -135,6 +135,8 @@ Definition holds (k : case) (o : obs) : list string :=
   end.
 
 Definition valid (k : case) : Prop := k_old2f k = false.
+(* [valid] as a boolean (C06.Props.C06_validb_valid): the only hypothesis of C06_holds is the current variant *)
+Definition validb (k : case) : bool := negb (k_old2f k).
 
 (* ---- sx ---- *)
 Definition sxTc (t : option tcobs) : sx :=
@@ -221,5 +223,5 @@ Definition entry (x : sx) : sx :=
   | None => sxS "bad-case"
   | Some (k, io) =>
       let m := run_model k in
-      L [ sxObs m; L (map sxS (holds k m)); L (map sxS (holds k io)) ]
+      L [ sxObs m; L (map sxS (holds k m)); L (map sxS (holds k io)); L []; sxBool (validb k) ]
   end.
